@@ -359,12 +359,41 @@ def execute_reuse(ex: Any, mode: str) -> tuple[Any, list[Any]]:
         return {"outcome": out2[0], "first": first[0], "stream": stream_repr(h.stream, False)[-3:], "_metrics": {"max_concurrency": 1}}, list(h.violations)
 
 
+def execute_cancel_queued(ex: Any) -> tuple[Any, list[Any]]:
+    """num_concurrent_runs=1: the first run holds the only slot, a second run is queued behind it; the client cancels the
+    queued run with handler.cancel_run() (which waits up to its timeout for the run to end); the second run is judged."""
+    from types import SimpleNamespace
+
+    from vmc.engine import BasicRuntime, EngineExec, MonRuntime, RunConfig
+
+    with EngineExec(ex, RunConfig(allow_time=True)) as e:
+        h = e.h
+        h.restart_marks = []
+        h.spec = SimpleNamespace(params={"cause": "cancel", "history": "queued_behind_concurrency_limit"}, name="cancel_queued_run")
+        cls = wf_chain(1)
+        wf = cls(timeout=None, num_concurrent_runs=1, runtime=MonRuntime(BasicRuntime()))
+        hd1 = wf.run(run_id="first")
+        hd2 = wf.run(run_id="second")
+        mine: list[Any] = []
+        h.on_publish.append(lambda hh, ev, ad: mine.append(ev) if getattr(ad, "run_id", None) == "second" else None)
+        e.consume_stream(hd2)
+        e.add_script([Action("second.cancel_run()", lambda: e.loop.create_task(hd2.cancel_run()))])
+        e.cfg.stop_when = lambda hh: hd2.is_done() and hh.stream_done and hd1.is_done()
+        e.drive()
+        h.published = mine  # judge the second run on what IT published
+        final(h, e, {"hd": hd2})
+        out2 = task_outcome(hd2._result_task)
+        return {"outcome": out2[0], "first": task_outcome(hd1._result_task)[0], "stream_done": h.stream_done,
+                "_metrics": {"max_concurrency": 2}}, list(h.violations)
+
+
 def programs(tier: str) -> list[Any]:
     from vmc.checks.common import Program
 
     ps = to_programs(specs(tier), ORACLE)
     for mode in ("finish", "cancel"):
         ps.append(Program(f"run_id_reused_after_{mode}", {"mode": mode}, (lambda ex, mode=mode: execute_reuse(ex, mode))))
+    ps.append(Program("cancel_run_of_queued_run", {}, execute_cancel_queued))
     return ps
 
 
